@@ -6,10 +6,12 @@ def dispatch (op : String) (payload : Json) : R Json :=
   match op with
   | "echo" => .ok payload
   | "swaps" => C04.handle payload
+  | "unbind" => C04.handleUnbind payload
   | "results" => C03.handle payload
   | "analyse_fn" => Visit.handle payload
   | "cli_merge" => C20.handle payload
   | "names" => C10.handle payload
+  | "naming_sites" => C10.handleSites payload
   | "locator" => C13.handle payload
   | "cache_gate" => C19.handleGate payload
   | "cache_history" => C19.handleHistory payload
@@ -28,6 +30,7 @@ def dispatch (op : String) (payload : Json) : R Json :=
   | "root_context" => File.handleRoot payload
   | "analyse_file" => File.handleFile payload
   | "pipeline" => Pipeline.handle payload
+  | "cross_resolve" => C08.handle payload
   | _ => .error s!"unknown op {op}"
 
 partial def loop (h : IO.FS.Stream) (out : IO.FS.Stream) : IO Unit := do
